@@ -54,22 +54,68 @@ def tlc_safe(x):
     return x
 
 
+class TraceEvalError(Exception):
+    """a recorded trace made TLC fail while EVALUATING the trace specification (a value of a shape
+    the specification cannot even compare: null where a record belongs, a string where a number
+    belongs).  That is an observation the model does not explain, not a failure of the machinery:
+    harness/main.py reports it as a violation."""
+
+    def __init__(self, module, items):
+        super().__init__("%d trace(s) outside what %s can evaluate" % (len(items), module))
+        self.module = module
+        self.items = items          # [(trace, event index or 0, TLC's message)]
+
+
+def _eval_error(e):
+    """(tid, l, message) if the TLC failure is an evaluation error inside a trace, else None"""
+    out = getattr(e, "out", "") or ""
+    if "evaluating" not in out and "unexpected exception" not in out and "Attempted to" not in out:
+        return None
+    import re
+    tids = re.findall(r"/\\ tid = (\d+)", out)
+    if not tids:
+        return None
+    ls = re.findall(r"/\\ l = (\d+)", out)
+    m = re.search(r"(Attempted to[^\n]*(?:\n[^\n]*){0,3})", out)
+    return int(tids[-1]), (int(ls[-1]) if ls else 0), (m.group(1) if m else "evaluation error").replace("\n", " ")[:300]
+
+
 def _one(args):
     module, cfgp, tracefile, outfile, work, timeout, dfs, heap = args
-    r = tlc.run_tlc(
-        module,
-        cfgp,
-        work=work,
-        workers=1,
-        env={"TRACE_FILE": tracefile, "OUT_FILE": outfile},
-        timeout=timeout,
-        dfs=dfs,
-        heap=heap,
-    )
-    if not os.path.exists(outfile):
-        raise tlc.TLCError("trace validation produced no result file:\n" + r.out[-3000:])
-    res = json.load(open(outfile))
-    return res, r.generated, r.distinct
+    part = json.load(open(tracefile))
+    index = list(range(1, len(part) + 1))       # current position -> original 1-based tid
+    evalerr = []
+    gen = dist = 0
+    res = {"accepted": [], "maxl": [0] * len(part), "failed": []}
+    while part:
+        try:
+            r = tlc.run_tlc(module, cfgp, work=work, workers=1, env={"TRACE_FILE": tracefile, "OUT_FILE": outfile}, timeout=timeout, dfs=dfs, heap=heap)
+        except tlc.TLCError as e:
+            info = _eval_error(e)
+            if info is None or not (1 <= info[0] <= len(part)) or len(evalerr) >= 5:
+                if evalerr:
+                    break           # enough has been seen; the rest of this chunk is not judged
+                raise
+            tid, l, msg = info
+            evalerr.append((index[tid - 1], l, msg))
+            del part[tid - 1]
+            del index[tid - 1]
+            with open(tracefile, "w") as f:
+                json.dump(part, f)
+            if os.path.exists(outfile):
+                os.remove(outfile)
+            continue
+        if not os.path.exists(outfile):
+            raise tlc.TLCError("trace validation produced no result file:\n" + r.out[-3000:])
+        sub = json.load(open(outfile))
+        gen, dist = r.generated, r.distinct
+        res["accepted"] = [index[j - 1] for j in sub["accepted"]]
+        for j, v in enumerate(sub["maxl"], 1):
+            res["maxl"][index[j - 1] - 1] = v
+        res["failed"] = [[index[item[0] - 1]] + list(item[1:]) for item in sub["failed"]]
+        break
+    res["evalerr"] = evalerr
+    return res, gen, dist
 
 
 def validate(module, traces, constants, *, work, jobs=16, chunk=400, timeout=900, dfs=False, spec="TSpec", heap="2g"):
@@ -98,6 +144,7 @@ def validate(module, traces, constants, *, work, jobs=16, chunk=400, timeout=900
             json.dump(tlc_safe(part), f)
         tasks.append((i * size, len(part), (module, cfgp, tf, of, work, timeout, dfs, heap)))
     accepted, rejected, failed, failed_pairs = [], {}, {}, {}
+    evalerrs = []
     states = trans = 0
     with cf.ThreadPoolExecutor(max_workers=jobs) as ex:
         futs = [(base, n, ex.submit(_one, a)) for base, n, a in tasks]
@@ -107,7 +154,12 @@ def validate(module, traces, constants, *, work, jobs=16, chunk=400, timeout=900
             trans += gen
             acc = set(res["accepted"])
             maxl = res["maxl"]
+            bad = {t for t, _l, _m in res.get("evalerr", [])}
+            for t, l, msg in res.get("evalerr", []):
+                evalerrs.append((traces[base + t - 1], l, msg))
             for j in range(1, n + 1):
+                if j in bad:
+                    continue
                 if j in acc:
                     accepted.append(base + j - 1)
                 else:
@@ -123,6 +175,8 @@ def validate(module, traces, constants, *, work, jobs=16, chunk=400, timeout=900
                             lst.append(d)
                 elif clause != "DriverFlags" and clause not in lst:
                     lst.append(clause)
+    if evalerrs:
+        raise TraceEvalError(os.path.basename(module).replace(".tla", ""), evalerrs)
     return {"accepted": accepted, "rejected": rejected, "failed": failed, "failed_pairs": failed_pairs, "states": states, "transitions": trans}
 
 
